@@ -17,6 +17,10 @@ PLAIN = ['X', '.', '0', '1', 'a b', 'x,y', '"q"', "it's", 'a;b', 'ü', 'Жук',
          '[x]', '{}', '<=>', 'a=b', '\\', '/', '%s', '{0}', 'None', 'X.', '..', 'B', 'x:y', '~', '$', '&amp;', '@',
          'p q r', 'é', 'ñ', 'ß', "''", '""', '`', '^', '?', 'Ω', 'a.b', '0x1F', '1e5', 'True', '\\n', 'è_é']
 BANG = ['!', '!!', 'a!b', 'x!!y']               # fine for table / cxt / csv, not for wiki-table
+# inner control characters that are not line breaks (information separators, bell, escape, DEL, zero-width and
+# bidi marks, no-break spaces): allowed inside table / cxt labels by the property statement
+CTRL = ['a\x1cb', 'x\x1dy', 'p\x1eq', 'u\x1fv', 'b\x07l', 'e\x1bc', 'd\x7fl', 'z\u200bw', 'r\u200fl', 'n\u00a0b', 'i\u3000d',
+        'long ' + 'x' * 90, 'e\u0301', '\ufeffbom'[1:] + 'x\ufeffy']
 BAR = ['a|b', '|', '#1', '#', 'x#y', '||']        # fine for cxt / csv only
 ANY = [' lead', 'trail ', ' both ', 'line\nbreak', 'cr\rlf', 'crlf\r\nx', '\n', ',', '"', '",', ',"', 'a,"b",c',
        '\t', ' ', "'", '"\n"', 'x\n\ny']          # csv / python-literal only
@@ -28,6 +32,8 @@ def labels(fmtclass, n, m, rng):
     pool = list(PLAIN)
     if fmtclass in ('table', 'cxt', 'any'):
         pool += BANG
+    if fmtclass in ('table', 'cxt'):
+        pool += CTRL
     if fmtclass in ('cxt', 'any'):
         pool += BAR
     if fmtclass == 'any':
